@@ -157,7 +157,7 @@ def catalogue(spl=None, spl2=None):
     i2 = Sc('I', 2)
     im = Sc('I', -3)
     cat = [
-        I, E('Pos', 0), X1, E('Pos', 2), E('Pos', 3), E('Der', 0), D1, D2, E('Der', 3), E('Der', 5),
+        I, E('Pos', 0), X1, E('Pos', 2), E('Pos', 3), E('Pos', 4), E('Pos', 6), E('Der', 0), D1, D2, E('Der', 3), E('Der', 4), E('Der', 5),
         E('Mul', D1, X1), E('Mul', X1, D1), E('Sub', E('Mul', D1, X1), E('Mul', X1, D1)),
         E('Add', D2, E('Pos', 2)), E('Sub', D2, E('Pos', 2)), E('Add', X1, D2), E('Sub', I, D1),
         E('SMulL', f, D1), E('SMulL', i2, X1), E('SMulR', X1, g), E('SMulR', D2, im),
@@ -610,7 +610,8 @@ def form_exprs(spl=None):
     X1, D1, D2, I = E('Pos', 1), E('Der', 1), E('Der', 2), E('Id')
     l = [I, D1, X1, D2, E('Pos', 2), E('Mul', X1, D1), E('SMulL', Sc('F', Fr(-1, 2)), D2),
          E('Add', E('SMulL', Sc('F', Fr(-1, 2)), D2), E('SMulL', Sc('F', Fr(1, 2)), E('Pos', 2))),
-         E('DivS', E('SubS', X1, Sc('I', 1)), Sc('I', 2)), E('Neg', E('Der', 3))]
+         E('DivS', E('SubS', X1, Sc('I', 1)), Sc('I', 2)), E('Neg', E('Der', 3)),
+         E('Pos', 4), E('Pos', 5)]      # higher powers: inner binomial coefficients
     if spl is not None:
         l += [E('Spl', spl), E('Mul', E('Spl', spl), D1)]
     return l
@@ -664,6 +665,53 @@ def gen_C06(seed, tier, linear=False):
 
 def gen_C07(seed, tier):
     return gen_C06(seed + 7, tier, linear=True)
+
+
+def kernel_cases(instance, seed):
+    """directed search after a broken kernel lemma k_<instance>_ok (coq/gen/KernelGen.v): cases that drive the real
+    code through exactly that kernel at exactly those sizes, with generic coefficients; the ordinary correspondence
+    and its oracle then decide whether a concrete failing input exists"""
+    rng = random.Random(seed)
+    parts = instance.split("_")
+    fam, nums = parts[0], [int(x) for x in parts[1:]]
+    cases = []
+    for r in range(4):
+        c = Case(f"K{fam}{'x'.join(map(str, nums))}r{r}")
+        pts = grid_points(rng, 4, rng.choice(['irregular', 'off+', 'sym']))
+        c.grid_new(0, pts)
+        c.sup_new(1001, 0, 0, 4)
+        full = lambda o: [[rand_scalar(rng, nonzero=True) for _ in range(o + 1)] for _ in range(3)]
+        if fam == 'bi':
+            c.spl_new(1, nums[0] - 1, 1001, full(nums[0] - 1)); c.spl_new(2, nums[1] - 1, 1001, full(nums[1] - 1))
+            c.bilin(E('Id'), E('Id'), 1, 2); c.bilin(E('Id'), E('Id'), 2, 1)
+        elif fam == 'lin':
+            c.spl_new(1, nums[0] - 1, 1001, full(nums[0] - 1)); c.lin(E('Id'), 1)
+        elif fam == 'eval':
+            c.spl_new(1, nums[0] - 1, 1001, full(nums[0] - 1))
+            for x in eval_points(pts, (0, 4)):
+                c.spl_eval(1, x)
+        elif fam in ('der', 'pos'):
+            c.spl_new(1, nums[1] - 1, 1001, full(nums[1] - 1))
+            c.apply(2, E('Der' if fam == 'der' else 'Pos', nums[0]), 1); c.show(2)
+        elif fam in ('faculty', 'facratio', 'binom'):
+            # reached through derivatives (facultyRatio) and position powers (binomialCoefficient)
+            k = max(nums) if nums else 1
+            o = min(max(k, 1), 8)
+            c.spl_new(1, o, 1001, full(o))
+            for d in range(0, o + 1):
+                c.apply(10 + d, E('Der', d), 1); c.show(10 + d)
+            for q in range(0, min(k, 5) + 1):
+                c.apply(30 + q, E('Pos', q), 1); c.show(30 + q)
+        elif fam in ('add', 'chsize'):
+            oa, ob = nums[0] - 1, nums[1] - 1
+            c.spl_new(1, oa, 1001, full(oa)); c.spl_new(2, ob, 1001, full(ob))
+            c.spl_add(3, 1, 2); c.show(3); c.spl_sub(4, 2, 1); c.show(4)
+            if oa < ob:
+                c.spl_assign_up(2, 1); c.show(2)
+        else:
+            continue
+        cases.append(c)
+    return cases
 
 
 def nontrivial_forms(t):
@@ -994,6 +1042,27 @@ def gen_C15(seed, tier):
                 c.spl_eq(2, 3); c.spl_eq(3, 2)
                 c.spl_mul(6, 2, 3); c.show(6); c.spl_is_zero(6)
             cases.append(c)
+    # isZero against every single-coefficient pattern: exactly one non-zero coefficient (each position 0..o, the
+    # leading one included) in exactly one interval (each position) or in every interval; orders 0..4 in both tiers;
+    # also the results of arithmetic on such splines
+    for o in range(0, 5):
+        c = Case(f"C15z{o}")
+        c.grid_new(0, pts)
+        c.sup_new(1000, 0, 1, n)
+        m = n - 2
+        d = 10
+        for k in range(o + 1):
+            for where in list(range(m)) + ['all']:
+                cs = [[(rand_scalar(rng) if (j == k and (where == 'all' or where == i)) else Fr(0)) for j in range(o + 1)] for i in range(m)]
+                c.spl_new(d, o, 1000, cs); c.spl_is_zero(d)
+                c.spl_scale(d + 1, d, Fr(0)); c.spl_is_zero(d + 1)
+                c.spl_sub(d + 2, d, d); c.spl_is_zero(d + 2)
+                c.spl_neg(d + 3, d); c.spl_is_zero(d + 3)
+                c.spl_add(d + 4, d, d); c.spl_is_zero(d + 4)
+                d += 5
+        c.spl_new(d, o, 1000, [[Fr(0)] * (o + 1) for _ in range(m)]); c.spl_is_zero(d)
+        c.spl_empty(d + 1, o, 0); c.spl_is_zero(d + 1)
+        cases.append(c)
     # equality across logically different grids (empty, point-like and coinciding windows)
     for tag, other in (("last", pts[:-1] + [pts[-1] + 1]), ("first", [pts[0] - 1] + pts[1:])):
         c = Case("C15_diffgrid_" + tag)
@@ -1270,6 +1339,11 @@ def gen_C16(seed, tier):
             c.apply(106, E('DivS', E('Id'), Sc('F', Fr(6))), 10); c.show(106)
             c.lin(E('DivS', E('Pos', 1), Sc('I', 3)), 10)
             c.bilin(E('DivS', E('Id'), Sc('I', 5)), E('Pos', 1), 10, 11)
+            # position-dependent operators on the LEFT, on the last functions of the basis (supports not starting at the
+            # first grid point)
+            c.bilin(E('Pos', 1), E('Id'), 10 + cnt - 1, 10 + cnt - 2)
+            c.bilin(E('Pos', 2), E('Der', 1), 10 + cnt - 1, 10 + cnt - 1)
+            c.bilin(E('Mul', E('Pos', 1), E('Der', 1)), E('Pos', 1), 10 + cnt - 2, 10 + cnt - 1)
         cases.append(c)
     for r in range(reps):
         c = Case(f"C16s{r}")
@@ -1290,6 +1364,8 @@ def gen_C16(seed, tier):
         c.spl_div(7, 1, Fr(4)); c.show(7)
         c.bilin(E('Id'), E('Id'), 1, 2)
         c.bilin(E('Der', 1), E('Pos', 1), 1, 2)
+        c.bilin(E('Pos', 1), E('Der', 1), 1, 2)
+        c.bilin(E('Pos', 2), E('Id'), 2, 1)
         c.lin(E('Pos', 2), 1)
         c.apply(8, E('Mul', E('Pos', 1), E('Der', 1)), 1); c.show(8)
         c.apply(9, E('Pos', 3), 2); c.show(9)
